@@ -85,6 +85,10 @@ func ParseFile(inputPath string) (areas []textArea, err error) {
 					continue
 				}
 
+				// 字段没有 tag 时没有可注入的位置, 跳过
+				if field.Tag == nil {
+					continue
+				}
 				currentTag := field.Tag.Value
 				area := textArea{
 					Start:      int(field.Pos()),
